@@ -1,9 +1,182 @@
 import TaurexModel.Proto
+import TaurexModel.Output
 
+/-
+  Driver operations of the C16 model.  Wire format of a `Value` (prefix code, one token per atom):
+    i <int> | f <u64 bits> | b <0|1> | a <kind 0=bool 1=int 2=float> <shape: list nat> <data: list>
+    | s <list nat (code points)> | l <n> v… | t <n> v… | d <n> (key v)… | u
+  and of a `Node`:  N <kind> <shape> <data> | V <list nat> | S <width> <n> (list nat)… | G <n> (key node)…
+-/
 namespace Taurex.Ops.C16
-open Taurex.Proto
+open Taurex.Proto Taurex.Output
 
-/-- operations of the C16 model served by `driver_c16` (filled in by the C16 check) -/
-def ops : List Op := []
+def arrP : P (Arr Float) := do
+  let k ← nat
+  let shape ← listOf nat
+  match k with
+  | 0 => do let d ← listOf bool; pure ⟨shape, .bools d⟩
+  | 1 => do let d ← listOf int; pure ⟨shape, .ints d⟩
+  | _ => do let d ← listOf flt; pure ⟨shape, .floats d⟩
+
+/-- parser of a value; `fuel` bounds the nesting depth -/
+def valueP : Nat → P (Value Float)
+  | 0 => failure
+  | fuel + 1 => do
+    let t ← tok
+    match t with
+    | "i" => do let i ← int; pure (.int i)
+    | "f" => do let x ← flt; pure (.float x)
+    | "b" => do let b ← bool; pure (.bool b)
+    | "a" => do let a ← arrP; pure (.array a)
+    | "s" => do let s ← listOf nat; pure (.str s)
+    | "l" => do let l ← listOf (valueP fuel); pure (.list l)
+    | "t" => do let l ← listOf (valueP fuel); pure (.tuple l)
+    | "d" => do
+        let d ← listOf (do let k ← tok; let v ← valueP fuel; pure (k, v))
+        pure (.dict d)
+    | "u" => pure .unsupported
+    | _ => failure
+
+def fArr (a : Arr Float) : String :=
+  match a.data with
+  | .bools l => s!"0 {fList fN a.shape} {fList fB l}"
+  | .ints l => s!"1 {fList fN a.shape} {fList fI l}"
+  | .floats l => s!"2 {fList fN a.shape} {fList fF l}"
+
+mutual
+def fValue : Value Float → String
+  | .int i => s!"i {fI i}"
+  | .float x => s!"f {fF x}"
+  | .bool b => s!"b {fB b}"
+  | .array a => s!"a {fArr a}"
+  | .str s => s!"s {fList fN s}"
+  | .list l => s!"l {l.length}{fValues l}"
+  | .tuple l => s!"t {l.length}{fValues l}"
+  | .dict d => s!"d {d.length}{fEntries d}"
+  | .unsupported => "u"
+def fValues : List (Value Float) → String
+  | [] => ""
+  | v :: vs => " " ++ fValue v ++ fValues vs
+def fEntries : List (String × Value Float) → String
+  | [] => ""
+  | (k, v) :: rest => " " ++ k ++ " " ++ fValue v ++ fEntries rest
+end
+
+mutual
+def fNode : Node Float → String
+  | .num a => s!"N {fArr a}"
+  | .vstr s => s!"V {fList fN s}"
+  | .sfix w rows => s!"S {w} {fList (fList fN) rows}"
+  | .group ch => s!"G {ch.length}{fChildren ch}"
+def fChildren : List (String × Node Float) → String
+  | [] => ""
+  | (k, n) :: rest => " " ++ k ++ " " ++ fNode n ++ fChildren rest
+end
+
+def errCode : Err → String
+  | .unsupported => "unsupported"
+  | .mixedStringList => "mixedStringList"
+  | .notDict => "notDict"
+
+def depth : Nat := 64
+
+/-- `c16.store v` → `1 node` | `0 err` -/
+def storeOp (args : List String) : Option String :=
+  run (do
+    let v ← valueP depth
+    match store v with
+    | .ok n => pure s!"1 {fNode n}"
+    | .error e => pure s!"0 {errCode e}") args
+
+/-- `c16.roundtrip v` → `1 value` (= load (store v)) | `0 err` -/
+def roundtripOp (args : List String) : Option String :=
+  run (do
+    let v ← valueP depth
+    match store v with
+    | .ok n => pure s!"1 {fValue (load n)}"
+    | .error e => pure s!"0 {errCode e}") args
+
+/-- `c16.flags v` → `WF regular supported isDict`, then `canon v` -/
+def flagsOp (args : List String) : Option String :=
+  run (do
+    let v ← valueP depth
+    pure s!"{fB (WF v)} {fB (regVal v)} {fB (supported v)} {fB (isDict v)} {fValue (canon v)}") args
+
+/-- `c16.write_array name v` → optional list of created entries (direct `HDF5OutputGroup.write_array`) -/
+def writeArrayOp (args : List String) : Option String :=
+  run (do
+    let name ← tok
+    let v ← valueP depth
+    match writeArray name v with
+    | some ch => pure s!"1 {ch.length}{fChildren ch}"
+    | none => pure "0") args
+
+/-- `c16.write_list name v` -/
+def writeListOp (args : List String) : Option String :=
+  run (do
+    let name ← tok
+    let v ← valueP depth
+    match v with
+    | .list l =>
+      match writeList name l with
+      | some ch => pure s!"1 {ch.length}{fChildren ch}"
+      | none => pure "0"
+    | _ => pure "0") args
+
+/-- `c16.reload typeKey klass ctorKw entries` → `1 <opt class value> <kwargs as dict value>` | `0 err` -/
+def reloadOp (args : List String) : Option String :=
+  run (do
+    let typeKey ← tok
+    let klass ← listOf nat
+    let ctorKw ← listOf tok
+    let v ← valueP depth
+    match v with
+    | .dict entries =>
+      match reloadComponent typeKey ctorKw (writeComponent typeKey klass entries) with
+      | .ok (k, kw) => pure s!"1 {fOpt fValue k} {fValue (.dict kw)}"
+      | .error e => pure s!"0 {errCode e}"
+    | _ => failure) args
+
+def fEntry : Entry Float → String
+  | .vec v => s!"1 {fList fF v}"
+  | .mat m => s!"2 {fList (fList fF) m}"
+
+def kindP : P BinnerKind := do
+  let n ← nat
+  pure (match n with | 0 => .flux | 1 => .simple | _ => .native)
+
+/-- `c16.spectrum kind size wn flux tau grid width bdFlux bdTau` → `n (key entry)…` -/
+def spectrumOp (args : List String) : Option String :=
+  run (do
+    let kind ← kindP
+    let size ← nat
+    let wn ← listOf flt
+    let flux ← listOf flt
+    let tau ← listOf (listOf flt)
+    let grid ← listOf flt
+    let width ← listOf flt
+    let bdFlux ← listOf flt
+    let bdTau ← listOf (listOf flt)
+    let out := spectrumOutput kind grid width (fun _ _ => bdFlux) (fun _ _ => bdTau) size wn flux tau
+    pure (toString out.length ++ String.join (out.map (fun (k, e) => " " ++ k ++ " " ++ fEntry e)))) args
+
+/-- `c16.edges g` → edges widths -/
+def edgesOp (args : List String) : Option String :=
+  run (do
+    let g ← listOf flt
+    let (e, w) := computeBinEdges g
+    pure s!"{fList fF e} {fList fF w}") args
+
+/-- `c16.wlwidth wn w` → list -/
+def wlwidthOp (args : List String) : Option String :=
+  run (do
+    let g ← listOf flt
+    let w ← listOf flt
+    pure (fList fF (wnwidthToWlwidth g w))) args
+
+def ops : List Op :=
+  [("c16.store", storeOp), ("c16.roundtrip", roundtripOp), ("c16.flags", flagsOp),
+   ("c16.write_array", writeArrayOp), ("c16.write_list", writeListOp), ("c16.reload", reloadOp),
+   ("c16.spectrum", spectrumOp), ("c16.edges", edgesOp), ("c16.wlwidth", wlwidthOp)]
 
 end Taurex.Ops.C16
